@@ -709,9 +709,7 @@ Lemma kind_eqb_refl a : kind_eqb a a = true.
 Proof. destruct a; reflexivity. Qed.
 Lemma schema_eqb_eq a b : schema_eqb a b = true -> a = b.
 Proof.
-  destruct a, b; simpl; intros H; try discriminate; auto.
-  - f_equal; lia.
-  - f_equal; lia.
+  destruct a, b; simpl; intros H; try discriminate; auto; f_equal; lia.
 Qed.
 Lemma schema_eqb_refl a : schema_eqb a a = true.
 Proof. destruct a; simpl; auto; lia. Qed.
@@ -938,7 +936,7 @@ Proof.
     + rewrite !String.eqb_refl. simpl. eexists; split; reflexivity.
 Qed.
 
-Definition schema_ok (s : schema) : Prop := match s with SMif m => 0 <= m < two32 | _ => True end.
+Definition schema_ok (s : schema) : Prop := match s with SMif m _ => 0 <= m < two32 | _ => True end.
 
 Lemma local_sync_core w h c n s : schema_ok s -> Core w h -> Core (local_sync w c n s) (spec_sync1 h c n s).
 Proof.
@@ -961,18 +959,18 @@ Proof.
         -- destruct (kind_eqb (ckind ca) (kind_of s)) eqn:KK; simpl negb; cbv iota.
            ++ (* same type: resize in place *)
               apply kind_eqb_eq in KK. simpl. rewrite K2, KK, kind_eqb_refl.
-              destruct s as [m|q b|]; simpl in *; rewrite !String.eqb_refl; simpl.
+              destruct s as [m sg|q b sg|sg]; simpl in *; rewrite !String.eqb_refl; simpl.
               ** rewrite KK in *. destruct K5 as (A0 & A & B & C & D). repeat split; auto; try lia; apply D.
               ** rewrite KK in *. repeat split; auto.
               ** rewrite KK in *. repeat split; auto.
            ++ (* type change: new limiter object *)
               simpl. rewrite K2, KK. rewrite !String.eqb_refl. simpl.
-              repeat split; auto; [lia|]. destruct s as [m|q b|]; simpl in *; auto.
+              repeat split; auto; [lia|]. destruct s as [m sg|q b sg|sg]; simpl in *; auto.
               repeat split; auto; try lia; try apply NoDup_nil; try (intros []);
                 try (intros H; apply G in H; lia).
       * (* first Sync of this name: NewFlowControlCache *)
         simpl. rewrite !String.eqb_refl. simpl.
-        repeat split; auto; [lia|]. destruct s as [m|q b|]; simpl in *; auto.
+        repeat split; auto; [lia|]. destruct s as [m sg|q b sg|sg]; simpl in *; auto.
         repeat split; auto; try lia; try apply NoDup_nil; try (intros []);
           try (intros H; apply G in H; lia).
     + apply (key_rel_frame w h); auto.
